@@ -3,6 +3,9 @@
 Three artefacts computed by different code (boolean, recorded error tree, 997/999 text) are compared with each
 other and with an independent count of the input's groups and sets.
 """
+import collections
+import re
+
 from .. import core, docgen, observe, x12ref
 from . import genfaulty
 
@@ -79,6 +82,8 @@ def parse_ack(ack):
 def check_case(case):
     out = _check_case(case)
     genfaulty.tag_structural(case, out)
+    # which of the three totals is off on structurally broken input is not a different root cause
+    out.failures = [(re.sub(r'^R5:group-totals:[a-z+]+\[', 'R5:group-totals[', b_), d_) for b_, d_ in out.failures]
     return out
 
 
@@ -103,6 +108,20 @@ def _check_case(case):
     out.nontrivial = (meta.get('nsets', 0) >= 2 and nerr >= 1) or meta.get('ngroups', 0) >= 2
     out.key = text
     out.classes.append('errors:%s' % ('0' if nerr == 0 else '1' if nerr == 1 else '2-5' if nerr <= 5 else '6+'))
+    # R1': every error the reader reports for a segment reaches the error tree (the verdict and the acknowledgement are made
+    # from the tree: an error that is only logged leaves a faulty input accepted)
+    try:
+        rerrs = observe.reader_errors(text)
+    except Exception:
+        rerrs = []
+    have = collections.Counter(' '.join((e['msg'] or '').split()) for e in o.errors)
+    for (typ, cde, msg, sid) in rerrs:
+        m_ = ' '.join((msg or '').split())
+        if typ == 'seg' and cde in ('1', '8', 'SEG1') and have[m_] <= 0:
+            where = 'envelope-segment' if sid in ('ISA', 'GS', 'ST', 'SE', 'GE', 'IEA') else 'body-segment'
+            out.fail('R1:reader-error-lost:%s' % where, 'the reader reports %r (code %s) at a %s segment; the error tree has no such error (verdict %r)' % (m_, cde, sid, o.verdict))
+            break
+        have[m_] -= 1
     # R1
     if (o.verdict is True) != (nerr == 0) or o.verdict not in (True, False):
         out.fail('R1:verdict-%s-with-%s-errors' % (o.verdict, 'no' if nerr == 0 else 'some'),
